@@ -568,7 +568,7 @@ def script(model):
         y1 = "gy1 = generated_source('y_one.c', 'gram1.y')"
         y2 = "gy2 = generated_source(file='gram2.y')"
         L += [y1, y2] if decor['yacc'] == 'one-first' else [y2, y1]
-        L.append("yprog = executable('yprog', ['ymain.c', gy1, gy2])")
+        L.append("yprog = executable('yprog', ['ymain.c', gy1, gy2[0]])")
     if model.get('clash'):
         st_ = step_by_id(model)[model['clash'][0]]
         if model['clash'][1] == 'alias':
